@@ -5,7 +5,7 @@
       present and not None, type in the allowed set, position strictly within the distance (great-circle) or
       inside the closed grid, where messages that report no position pass the geographic filters."
 
-   A criterion is one of the five kinds of demand; [satisfies] says when a message meets it; [conj_filter] is
+   A criterion is one of the five kinds of demand; [crit_satisfies] says when a message meets it; [conj_filter] is
    the subsequence of the messages that meet all of them.  The great-circle distance is a parameter. *)
 From Coq Require Import ZArith List Bool String.
 Require Import Prim.Rat Prim.PyObj.
